@@ -174,4 +174,16 @@ PROPS = {
         not_decided=['find_neighbors / euclidean_distance (usize as f32, powf, sqrt, ceil): outside Verus; contains-the-centre, symmetry, monotonicity, agreement with brute-force geometry are NOT decided',
                      'bijectivity of the decomposition (mixed-radix recombination)'],
     ),
+    'C15': dict(
+        level='proof',
+        units=['nameglob:*VECTOR.*', 'path:list::load_items'],
+        classes=['post'],
+        label_re=r'bound\.alloc|at-most-one-item-per-id',
+        explanation='the expressible part of C15: every vector a step creates is no longer than the vector operands it consumed plus the number of scalar operands plus one '
+                    '(bound.alloc clauses: element-wise operations, NOT, APPEND, SET*INSERT, FROMINT, load_items) -- i.e. allocation is bounded by the state, not by operand magnitude; '
+                    'ONES / ZEROS / RAND vectors are sized by an INTEGER operand by design: one known finding each',
+        not_decided=['peak RSS, wall-clock time and host stack depth of a step: not expressible as a contract',
+                     'no CODE/EXEC item grows beyond max_points_in_program: the limit is consulted nowhere (CODE.APPEND/LIST/CONS, EXEC.S/Y, LIST.ADD ... grow items freely); not encoded as obligations',
+                     'FLOATVECTOR.SINE (external body: usize as f32) and LIST.NEIGHBOR* (external find_neighbors) allocate by an INTEGER operand too'],
+    ),
 }
